@@ -15,7 +15,7 @@ pub struct C20P;
 pub static C20: C20P = C20P;
 
 fn n_for(t: Tier) -> usize {
-    t.pick(5, 7)
+    t.pick(5, 12)
 }
 
 fn dim_set(n: usize) -> Vec<usize> {
